@@ -12,7 +12,7 @@
 use bytes::BytesMut;
 use futures::{FutureExt, SinkExt, StreamExt};
 use parking_lot::Mutex;
-use ratchet::{Message, NoExt, Role, WebSocket, WebSocketConfig};
+use ratchet::{NoExt, Role, WebSocket, WebSocketConfig};
 use serde_json::{json, Value};
 use std::collections::{HashMap, HashSet};
 use std::num::NonZeroUsize;
@@ -199,6 +199,72 @@ fn spawn_agent_reader(rx: ByteReader, node: String, inst: u64, log: Log) -> Join
     })
 }
 
+/// One client-to-server web socket frame (masked, as RFC 6455 requires of a client).
+fn ws_frame(fin: bool, opcode: u8, payload: &[u8]) -> Vec<u8> {
+    let key = [0x37u8, 0xfa, 0x21, 0x3d];
+    let mut f = Vec::with_capacity(payload.len() + 14);
+    f.push(if fin { 0x80 | opcode } else { opcode });
+    if payload.len() < 126 {
+        f.push(0x80 | payload.len() as u8);
+    } else if payload.len() <= 0xFFFF {
+        f.push(0x80 | 126);
+        f.extend_from_slice(&(payload.len() as u16).to_be_bytes());
+    } else {
+        f.push(0x80 | 127);
+        f.extend_from_slice(&(payload.len() as u64).to_be_bytes());
+    }
+    f.extend_from_slice(&key);
+    f.extend(payload.iter().enumerate().map(|(i, b)| b ^ key[i % 4]));
+    f
+}
+
+async fn write_peer(w: &mut tokio::io::WriteHalf<tokio::io::DuplexStream>, frame: &[u8], log: &Log) {
+    use tokio::io::AsyncWriteExt;
+    let r = tokio::time::timeout(Duration::from_secs(3600), w.write_all(frame)).await;
+    if !matches!(r, Ok(Ok(()))) {
+        log.lock().push(json!({"k": "peer_write_failed"}));
+    }
+}
+
+/// One server-to-client frame: (fin, opcode, payload); None at end of stream.
+async fn read_ws_frame(r: &mut tokio::io::ReadHalf<tokio::io::DuplexStream>) -> Result<Option<(bool, u8, Vec<u8>)>, String> {
+    use tokio::io::AsyncReadExt;
+    let mut h = [0u8; 2];
+    match r.read_exact(&mut h).await {
+        Ok(_) => {}
+        Err(e) if e.kind() == std::io::ErrorKind::UnexpectedEof => return Ok(None),
+        Err(e) => return Err(e.to_string()),
+    }
+    let fin = h[0] & 0x80 != 0;
+    if h[0] & 0x70 != 0 {
+        return Err("reserved bits set in a frame from the task".to_string());
+    }
+    let opcode = h[0] & 0x0F;
+    let masked = h[1] & 0x80 != 0;
+    let mut len = (h[1] & 0x7F) as u64;
+    if len == 126 {
+        let mut b = [0u8; 2];
+        r.read_exact(&mut b).await.map_err(|e| e.to_string())?;
+        len = u16::from_be_bytes(b) as u64;
+    } else if len == 127 {
+        let mut b = [0u8; 8];
+        r.read_exact(&mut b).await.map_err(|e| e.to_string())?;
+        len = u64::from_be_bytes(b);
+    }
+    let mut key = [0u8; 4];
+    if masked {
+        r.read_exact(&mut key).await.map_err(|e| e.to_string())?;
+    }
+    let mut payload = vec![0u8; len as usize];
+    r.read_exact(&mut payload).await.map_err(|e| e.to_string())?;
+    if masked {
+        for (i, b) in payload.iter_mut().enumerate() {
+            *b ^= key[i % 4];
+        }
+    }
+    Ok(Some((fin, opcode, payload)))
+}
+
 async fn settle() {
     // paused clock: the sleep elapses only when every other task is parked - an exact barrier
     tokio::time::sleep(Duration::from_nanos(1)).await;
@@ -218,7 +284,6 @@ async fn run_task_async(case: &Value) -> Value {
     let (server, client) = duplex(cfg["duplex"].as_u64().unwrap_or(1 << 16) as usize);
     let config = WebSocketConfig::default();
     let server = WebSocket::from_upgraded(config, server, Some(NoExt), BytesMut::new(), Role::Server);
-    let client = WebSocket::from_upgraded(config, client, Some(NoExt), BytesMut::new(), Role::Client);
     let (stop_tx, stop_rx) = trigger::trigger();
     let (attach_tx, attach_rx) = mpsc::channel::<AttachClient>(reg_buf.get());
     let (find_tx, mut find_rx) = mpsc::channel::<FindNode>(reg_buf.get());
@@ -233,36 +298,48 @@ async fn run_task_async(case: &Value) -> Value {
         });
     }
 
-    // the peer
-    let (mut peer_tx, mut peer_rx) = client.split().expect("split");
+    // the peer: speaks RFC 6455 frames directly on its end of the duplex stream, so that it can frame a text
+    // message any way a peer may (fragments, control frames at any point, also between fragments)
+    let (mut peer_rx, mut peer_tx) = tokio::io::split(client);
     {
         let log = log.clone();
         tokio::spawn(async move {
-            let mut b = BytesMut::new();
+            let mut message: Vec<u8> = Vec::new();
             loop {
-                b.clear();
-                match peer_rx.read(&mut b).await {
-                    Ok(Message::Text) => match std::str::from_utf8(&b) {
-                        Ok(text) => {
-                            let back = decode_text(text);
-                            if back.get("err").is_some() {
-                                log.lock().push(json!({"k": "bad_frame", "text": text, "err": back}));
-                            } else {
-                                log.lock().push(json!({"k": "wire_out", "msg": back, "text": text}));
-                            }
-                        }
-                        Err(_) => log.lock().push(json!({"k": "bad_frame", "text": "<invalid utf-8>"})),
-                    },
-                    Ok(Message::Binary) => log.lock().push(json!({"k": "bad_frame", "text": "<binary>"})),
-                    Ok(Message::Close(r)) => {
-                        log.lock().push(json!({"k": "ws_closed", "reason": format!("{:?}", r)}));
-                        break;
-                    }
-                    Ok(_) => {}
+                let (fin, opcode, payload) = match read_ws_frame(&mut peer_rx).await {
+                    Ok(Some(f)) => f,
+                    Ok(None) => break, // the task dropped the socket
                     Err(e) => {
-                        log.lock().push(json!({"k": "ws_error", "err": e.to_string()}));
+                        log.lock().push(json!({"k": "ws_error", "err": e}));
                         break;
                     }
+                };
+                match opcode {
+                    0x0 | 0x1 => {
+                        message.extend_from_slice(&payload);
+                        if !fin {
+                            continue;
+                        }
+                        let bytes = std::mem::take(&mut message);
+                        match std::str::from_utf8(&bytes) {
+                            Ok(text) => {
+                                let back = decode_text(text);
+                                if back.get("err").is_some() {
+                                    log.lock().push(json!({"k": "bad_frame", "text": text, "err": back}));
+                                } else {
+                                    log.lock().push(json!({"k": "wire_out", "msg": back, "text": text}));
+                                }
+                            }
+                            Err(_) => log.lock().push(json!({"k": "bad_frame", "text": "<invalid utf-8>"})),
+                        }
+                    }
+                    0x2 => log.lock().push(json!({"k": "bad_frame", "text": "<binary>"})),
+                    0x8 => {
+                        let code = if payload.len() >= 2 { u16::from_be_bytes([payload[0], payload[1]]) } else { 0 };
+                        log.lock().push(json!({"k": "ws_closed", "reason": format!("{} {}", code, String::from_utf8_lossy(payload.get(2..).unwrap_or(&[])))}));
+                        break;
+                    }
+                    _ => {} // ping / pong from the task (its replies to our pings)
                 }
             }
         });
@@ -438,9 +515,34 @@ async fn run_task_async(case: &Value) -> Value {
                     Some(extra) if text.ends_with(')') => format!("{}{})", &text[..text.len() - 1], extra),
                     _ => text,
                 };
-                if tokio::time::timeout(Duration::from_secs(3600), peer_tx.write_text(text)).await.map(|r| r.is_err()).unwrap_or(true) {
-                    log.lock().push(json!({"k": "peer_write_failed"}));
-                }
+                write_peer(&mut peer_tx, &ws_frame(true, 0x1, text.as_bytes()), &log).await;
+            }
+            "peer_frag" => {
+                // fragment `part` of `of` of the text of `msg`, cut at the byte offsets given as fractions in `cuts`
+                // (a cut may fall inside a UTF-8 sequence, as RFC 6455 allows)
+                log.lock().push(a.clone());
+                let text = match a.get("text").and_then(|t| t.as_str()) {
+                    Some(t) => t.to_string(),
+                    None => encode_text(&a["msg"]).expect("encode"),
+                };
+                let bytes = text.as_bytes();
+                let n = a["of"].as_u64().unwrap() as usize;
+                let j = a["part"].as_u64().unwrap() as usize;
+                let mut offs: Vec<usize> = a["cuts"].as_array().map(|c| c.iter().map(|f| ((f.as_f64().unwrap_or(0.5) * bytes.len() as f64) as usize).min(bytes.len())).collect()).unwrap_or_default();
+                offs.resize(n - 1, bytes.len());
+                offs.sort();
+                let lo = if j == 1 { 0 } else { offs[j - 2] };
+                let hi = if j == n { bytes.len() } else { offs[j - 1] };
+                write_peer(&mut peer_tx, &ws_frame(j == n, if j == 1 { 0x1 } else { 0x0 }, &bytes[lo..hi]), &log).await;
+            }
+            "peer_ctl" => {
+                log.lock().push(a.clone());
+                let frame = match s(a, "c") {
+                    "ping" => ws_frame(true, 0x9, b"hb"),
+                    "pong" => ws_frame(true, 0xA, b""),
+                    _ => ws_frame(true, 0x8, &[0x03, 0xE8]),
+                };
+                write_peer(&mut peer_tx, &frame, &log).await;
             }
             "settle" => {
                 settle().await;
